@@ -209,8 +209,18 @@ class Interp:
             m = self.cls.find_method(short, "getter")
             if m is None or m.is_property:
                 raise AnalysisError(f"call of unknown method self.{short}")
-            # value position: only cast-like helpers (no store into self, result depends on the first argument)
-            cast_model(m)
+            # value position: cast-like helpers (no store into self, result depends on the first argument) are the
+            # identity on their argument; any other method is interpreted, provided it is a pure query of the
+            # state (no field changes, a single non-raising outcome) — e.g. check_is_defined(raise_error=False)
+            try:
+                cast_model(m)
+            except AnalysisError:
+                outs = [o for o in self.call_method(m, c, p.fork()) if o.status != "raise"]
+                if len(outs) != 1 or outs[0].fields != p.fields:
+                    raise AnalysisError(f"self.{short}(...) used as a value is neither cast-like nor a pure query "
+                                        "with a single outcome")
+                rv = outs[0].retval
+                return UNK if rv is None else rv
             if not c.args:
                 raise AnalysisError(f"self.{short}() used as a value without a positional argument")
             return self.eval(c.args[0], p)
